@@ -8,6 +8,8 @@
 package nd
 
 import (
+	"time"
+
 	"crypto"
 	"crypto/ed25519"
 	"crypto/sha256"
@@ -255,3 +257,9 @@ func Implies(a, b bool) bool { return !a || b }
 // AssumeHashInjective adds, under the executor, the assumption that the ideal hash maps different inputs
 // to different digests (collision freedom of SHA-256 is assumed, not checked).  Natively a no-op.
 func AssumeHashInjective() {}
+
+// NowUnix is the clock in Unix seconds: the symbolic base instant of the stubbed time.Now under the
+// executor (any instant 2001..2096; each later time.Now() call is at most one hour after it), the real
+// clock natively.  Harnesses derive "a day ago" from it instead of from input bytes, so that symbolic and
+// native runs stay aligned.
+func NowUnix() int64 { return time.Now().Unix() }
